@@ -47,6 +47,10 @@ def run(tier, seed, work, replay):
         {"kind": "otp", "origin": "rapid", "steps": [F, T, quickfire, T, W, T]},
         {"kind": "otp", "origin": "five-failures-then-right", "steps": [F, W, F, W, F, W, F, W, F, W, T, W, T]},
         {"kind": "otp", "origin": "ten-failures-then-right", "steps": sum([[F, W] for _ in range(10)], []) + [T, {"op": "wait", "d": 4000}, T]},
+        {"kind": "otp", "origin": "second-lockout", "steps": sum([[F, W] for _ in range(5)], []) + [{"op": "wait", "d": 4000}] +
+         sum([[F, W] for _ in range(5)], []) + [T, {"op": "wait", "d": 1800}, T, {"op": "wait", "d": 2000}, T]},
+        {"kind": "otp", "origin": "third-lockout", "steps": sum([[F, W] for _ in range(5)], []) + [{"op": "wait", "d": 4000}] +
+         sum([[F, W] for _ in range(5)], []) + [{"op": "wait", "d": 8000}] + sum([[F, W] for _ in range(5)], []) + [T, W, T]},
         {"kind": "otp", "origin": "lock-expires", "steps": sum([[F, W] for _ in range(5)], []) + [{"op": "wait", "d": 4000}, T]},
         {"kind": "otp", "origin": "lock-after-idle-hours", "steps": [F, W, T, {"op": "wait", "d": 10800}] + sum([[F, W] for _ in range(5)], []) +
          [T, {"op": "wait", "d": 3500}, T, {"op": "wait", "d": 200}, T]},
